@@ -829,11 +829,18 @@ func GenModuli(LogNthRoot int, logQ, logP []int) (q, p []uint64, err error) {
 
 	// Extracts all the different primes bit size and maps their number
 	primesbitlen := make(map[int]int)
-	for _, qi := range logQ {
+	// 2^size +/- k*NthRoot + 1 is 1 mod NthRoot only if NthRoot divides 2^size
+	for i, qi := range logQ {
+		if qi < LogNthRoot {
+			return nil, nil, fmt.Errorf("logQ[%d]=%d is smaller than LogNthRoot=%d", i, qi, LogNthRoot)
+		}
 		primesbitlen[qi]++
 	}
 
-	for _, pj := range logP {
+	for i, pj := range logP {
+		if pj < LogNthRoot {
+			return nil, nil, fmt.Errorf("logP[%d]=%d is smaller than LogNthRoot=%d", i, pj, LogNthRoot)
+		}
 		primesbitlen[pj]++
 	}
 
